@@ -790,6 +790,8 @@ class Interp(object):
         for item in st.items:
             cm = self.eval(item.context_expr, env)
             exits = []
+            if isinstance(cm, Opaque) and cm.attrs.get('__ctx__') is not None:
+                return self._with_generator_cm(st, item, cm, env)
             if isinstance(cm, Opaque) and cm.attrs.get('__enter__') is not None:
                 # a stub context manager supplied by a check (e.g. a file object): __enter__ / __exit__ as given
                 val = self.call(cm.attrs['__enter__'], [], {})
@@ -802,6 +804,68 @@ class Interp(object):
             if item.optional_vars is not None:
                 self.assign(item.optional_vars, cm, env)
         self.exec_block(st.body, env)
+
+    def _with_generator_cm(self, st, item, cm, env):
+        """`with f(...) as v:` where f is a generator decorated with contextlib.contextmanager.  Supported shapes of f's body:
+        [pre..., yield, post...] (an exception of the block skips post) and [pre..., try: [..., yield, ...] finally: [...], post...]
+        (the finally part always runs).  Exactly one yield, at the top level of the body or of that try."""
+        if len(st.items) != 1:
+            raise Undecidable('with statement combining a generator-based context manager with others')
+        f, args, kwargs, qual = cm.attrs['__ctx__']
+        node, fenv = self._bind_env(f, args, kwargs, qual)
+
+        def is_yield(s_):
+            v_ = s_.value if isinstance(s_, (ast.Expr, ast.Assign)) else None
+            return isinstance(v_, ast.Yield)
+
+        def has_yield(s_):
+            return any(isinstance(n_, (ast.Yield, ast.YieldFrom)) for n_ in ast.walk(s_))
+        body = list(node.body)
+        idx = [i for i, s_ in enumerate(body) if has_yield(s_)]
+        if len(idx) != 1:
+            raise Undecidable('generator-based context manager with %d yielding statements' % len(idx))
+        k = idx[0]
+        ys = body[k]
+        pre, post = body[:k], body[k + 1:]
+        finalbody = []
+        if isinstance(ys, ast.Try) and not ys.handlers and not ys.orelse:
+            inner = [i for i, s_ in enumerate(ys.body) if has_yield(s_)]
+            if len(inner) != 1 or not is_yield(ys.body[inner[0]]):
+                raise Undecidable('generator-based context manager: yield nested too deeply')
+            pre = pre + ys.body[:inner[0]]
+            after_yield = ys.body[inner[0] + 1:]
+            finalbody = ys.finalbody
+            ys = ys.body[inner[0]]
+        elif is_yield(ys):
+            after_yield = []
+        else:
+            raise Undecidable('generator-based context manager: yield inside a compound statement')
+        self.func_stack.append(qual)
+        try:
+            self.exec_block(pre, fenv)
+            val = self.eval(ys.value.value, fenv) if ys.value.value is not None else None
+        finally:
+            self.func_stack.pop()
+        if item.optional_vars is not None:
+            self.assign(item.optional_vars, val, env)
+
+        def run(stmts):
+            self.func_stack.append(qual)
+            try:
+                try:
+                    self.exec_block(stmts, fenv)
+                except _Return:
+                    pass
+            finally:
+                self.func_stack.pop()
+        try:
+            self.exec_block(st.body, env)
+        except (PyRaise, _Return, _Break, _Continue):
+            run(finalbody)           # the exception is thrown into the generator at the yield: only a finally clause still runs
+            raise
+        run(after_yield)
+        run(finalbody)
+        run(post)
 
     def st_Delete(self, st, env):
         for t in st.targets:
@@ -1525,6 +1589,10 @@ class Interp(object):
                     memo = self.__dict__.setdefault('_memo', {})
                     if memo_key in memo:
                         return memo[memo_key]          # the very same object as the first time
+                elif kind == 'contextmanager':
+                    cm = Opaque('contextmanager')
+                    cm.attrs['__ctx__'] = (f, list(args), dict(kwargs), qual)
+                    return cm
                 elif kind != 'transparent':
                     raise Undecidable('function decorated with %s' % ast.unparse(d))
         if memo_key is not None:
@@ -1548,6 +1616,8 @@ class Interp(object):
             return 'memo'
         if last == 'wraps':
             return 'transparent'
+        if last == 'contextmanager' and (dotted.startswith('contextlib') or r is None or r[0] == 'ext'):
+            return 'contextmanager'
         return txt
 
     def _call_closure_body(self, f, args, kwargs, qual):
@@ -1559,6 +1629,28 @@ class Interp(object):
         if qual is not None:
             self.called.add(qual)
         try:
+            node, env = self._bind_env(f, args, kwargs, qual)
+            if isinstance(node, ast.Lambda):
+                return self.eval(node.body, env)
+            if _is_generator(node):
+                env.vars['__yield__'] = []
+                try:
+                    self.exec_block(node.body, env)
+                except _Return:
+                    pass
+                return Iter(env.vars['__yield__'])
+            try:
+                self.exec_block(node.body, env)
+            except _Return as r:
+                return r.v
+            return None
+        finally:
+            self.depth -= 1
+            self.func_stack.pop()
+
+    def _bind_env(self, f, args, kwargs, qual):
+        """the environment of a call: parameters bound to arguments and defaults -> (function node, Env)"""
+        if True:
             node = f.node
             env = Env(f.env, f.module)
             a = node.args
@@ -1600,23 +1692,7 @@ class Interp(object):
                 env.vars[a.kwarg.arg] = kw
             elif kw:
                 raise PyRaise('TypeError', 'unexpected keyword %s for %s' % (sorted(kw), qual))
-            if isinstance(node, ast.Lambda):
-                return self.eval(node.body, env)
-            if _is_generator(node):
-                env.vars['__yield__'] = []
-                try:
-                    self.exec_block(node.body, env)
-                except _Return:
-                    pass
-                return Iter(env.vars['__yield__'])
-            try:
-                self.exec_block(node.body, env)
-            except _Return as r:
-                return r.v
-            return None
-        finally:
-            self.depth -= 1
-            self.func_stack.pop()
+            return node, env
 
     def ex_Yield(self, e, env):
         v = self.eval(e.value, env) if e.value is not None else None
